@@ -64,6 +64,10 @@ def records(g, chains, maxlen):
     # a read name with a space (GraphAligner style)
     r = recs[1]
     recs[1] = rgfa.Rec(r.qname + " extra words", *r.cols()[1:], opt=r.opt)
+    # split / supplementary alignments: several records share a query name (every fifth record takes the name of its predecessor,
+    # whose walk usually differs in orientation), so anything kept per read name instead of per record shows
+    for k in range(4, len(recs), 5):
+        recs[k] = rgfa.Rec(recs[k - 1].qname, *recs[k].cols()[1:], opt=recs[k].opt)
     return recs
 
 
